@@ -519,9 +519,44 @@ pub fn crash_sweep(a: &Args) -> Report {
       break;
     }
   }
+  // strings are arbitrary Unicode on the JavaScript side: a multi-byte character at every
+  // position of the first 24 characters (and at strided later ones) of a genuine share list, of
+  // ASCII garbage and of short lines, in 2-, 3- and 4-byte encodings; CR LF; NUL; a BOM
+  let two = format!("{}\n{}", good[0], good[good.len() - 1]);
+  for (bn, base) in [("genuine", two.clone()), ("garbage", "A".repeat(40)), ("short", "AAAAAAAAAAAA".to_string())] {
+    let chars: Vec<char> = base.chars().collect();
+    let mut positions: Vec<usize> = (0..24.min(chars.len())).collect();
+    positions.extend((24..chars.len()).step_by(11));
+    if !chars.is_empty() {
+      positions.push(chars.len() - 1);
+    }
+    for pos in positions {
+      for (cn, ch) in [("2-byte", 'é'), ("3-byte", '€'), ("4-byte", '😀')] {
+        let mut c2 = chars.clone();
+        c2[pos] = ch;
+        wasm_inputs.push((format!("unicode:{bn}:{cn}:replace@{pos}"), c2.iter().collect()));
+        let mut c3 = chars.clone();
+        c3.insert(pos, ch);
+        wasm_inputs.push((format!("unicode:{bn}:{cn}:insert@{pos}"), c3.iter().collect()));
+      }
+    }
+  }
+  wasm_inputs.push(("crlf".into(), two.replace('\n', "\r\n")));
+  wasm_inputs.push(("nul".into(), format!("{}\0{}", good[0], good[0])));
+  wasm_inputs.push(("bom".into(), format!("\u{feff}{}", two)));
+  wasm_inputs.push(("only-newlines".into(), "\n\n\n".into()));
+  wasm_inputs.push(("padding-only".into(), "====\n====".into()));
   for (name, inp) in wasm_inputs {
     rep.evaluations += 1;
     rep.nontrivial(format!("wasm:{name}"));
+    // (the epoch is a string too)
+    for ep in ["epoch", "épöque€😀", ""] {
+      if guard(|| star_wasm::group_shares(&inp, ep)).is_panic() {
+        c09_panic(&mut rep, "star_wasm::group_shares", &name,
+          format!("group_shares panicked on input class {name} (epoch {ep:?})"), json!({"input": inp, "epoch": ep}));
+        break;
+      }
+    }
     if guard(|| star_wasm::group_shares(&inp, "epoch")).is_panic() {
       c09_panic(&mut rep, "star_wasm::group_shares", &name,
         format!("group_shares panicked on input class {name}"), json!({"input": inp}));
